@@ -446,3 +446,6 @@ def rule_E(run, prog, cls):
         "return SuperOperator(data=self.data[ti, :, :, :, :])" in st
     run.obligation(rid, "EvolutionSuperOperator.at", ok, key="located-slice",
                    message="at(time) must return the slice at the located index", loc=g.loc())
+    # apply() dispatches on the kind of `time`: every kind the documentation lists must reach its branch
+    from .. import apiexist
+    apiexist.check_isinstance_types(run, rid, prog, [f, g], "applying the superoperator")
